@@ -19,6 +19,16 @@ func Parse(data []byte) (interface{}, error) {
 		return nil, ErrUnknownSchema
 	}
 
+	if id != EnvelopeSchema {
+		// documents are read the way an envelope reads its own, so that the
+		// same checks apply to a bare document
+		doc := new(schema.Object)
+		if err := json.Unmarshal(data, doc); err != nil {
+			return nil, ErrUnmarshal.WithCause(err)
+		}
+		return doc.Instance(), nil
+	}
+
 	obj := id.Interface()
 	if err := json.Unmarshal(data, obj); err != nil {
 		return nil, ErrUnmarshal.WithCause(err)
